@@ -66,6 +66,8 @@ func FaultMenu(w *txnh.World, e *sched.Event, withSplit bool) []sched.Dev {
 	ds := []sched.Dev{
 		{Name: "drop-req", Kind: txnh.DevDropReq},
 		{Name: "drop-resp", Kind: txnh.DevDropResp},
+		{Name: "down-req", Kind: txnh.DevDownReq},
+		{Name: "down-resp", Kind: txnh.DevDownResp},
 		{Name: "not-leader", Kind: txnh.DevRegionErr, Arg: &errorpb.Error{Message: "injected", NotLeader: &errorpb.NotLeader{RegionId: req.Context.GetRegionId()}}},
 		{Name: "epoch-not-match", Kind: txnh.DevRegionErr, Arg: &errorpb.Error{Message: "injected", EpochNotMatch: &errorpb.EpochNotMatch{}}},
 		{Name: "server-busy", Kind: txnh.DevRegionErr, Arg: &errorpb.Error{Message: "injected", ServerIsBusy: &errorpb.ServerIsBusy{Reason: "injected"}}},
